@@ -19,7 +19,8 @@ EVID = os.path.join(VERIF, 'evidence' + os.environ.get('VERIF_EVID_SUFFIX', ''))
 REPLAY = os.path.join(EVID, 'replay')
 REPO = os.environ.get('NUMQI_REPO', '/repo')
 ALLOWED_AXIOMS = {'propext', 'Classical.choice', 'Quot.sound'}
-FORBIDDEN = re.compile(r'\b(sorry|admit|native_decide|bv_decide|implemented_by|unsafe)\b|^\s*axiom\s|maxHeartbeats\s+0\b', re.M)
+FORBIDDEN = re.compile(r'\b(sorry|admit|native_decide|bv_decide|implemented_by|extern|unsafe|unsafeCast|lcProof|skipKernelTC)\b'
+                       r'|^\s*(?:private\s+|protected\s+)?axiom\s|maxHeartbeats\s+0\b', re.M)
 
 
 def strip_lean_comments(src):
@@ -61,7 +62,7 @@ class Ctx:
         self.extra = {}
         self.assumptions = []
         self.known = load_known()
-        self.np_seed = seed * 7919 + int(pid[1:])
+        self.np_seed = (seed * 7919 + int(pid[1:])) % (2 ** 63)   # every consumer (numpy, torch, random) accepts this range
 
     # -- bookkeeping -------------------------------------------------------
     def count(self, tag, k=1):
@@ -129,10 +130,27 @@ def build_lock():
             _LOCK_DEPTH[0] -= 1
         return
     os.makedirs(os.path.join(LEAN, '.lake'), exist_ok=True)
-    f = open(os.path.join(LEAN, '.lake', 'verif-build.lock'), 'w')
+    f = open(os.path.join(LEAN, '.lake', 'verif-build.lock'), 'a+')
     t = time.time()
-    fcntl.flock(f, fcntl.LOCK_EX)
+    told = t
+    while True:
+        try:
+            fcntl.flock(f, fcntl.LOCK_EX | fcntl.LOCK_NB)
+            break
+        except OSError:
+            time.sleep(0.5)
+            if time.time() - told > 120:
+                told = time.time()
+                try:
+                    f.seek(0); holder = f.read().strip()
+                except OSError:
+                    holder = '?'
+                print(f'[lock] waiting {int(told - t)} s for the Lean project lock (held by pid {holder or "?"})', file=sys.stderr)
     LOCK_WAIT[0] += time.time() - t
+    try:
+        f.seek(0); f.truncate(); f.write(str(os.getpid())); f.flush()
+    except OSError:
+        pass
     _LOCK_DEPTH[0] = 1
     try:
         yield
@@ -171,6 +189,7 @@ def theorem_names(path):
 def audit(ctx, theorem_files, extra_grep_files=()):
     """build the theorem modules, grep for forbidden constructs, `#print axioms` every theorem"""
     mods = [module_of(f) for f in theorem_files]
+    sweep_stale_private_drivers()
     ok, log = lake_build(mods + ['driver_' + ctx.pid.lower()])
     ctx.proof['build_ok'] = ok
     # keep a run-private copy of the driver built from *this* run's generated files (another run may rebuild it after the lock is released)
@@ -182,11 +201,17 @@ def audit(ctx, theorem_files, extra_grep_files=()):
             import shutil
             shutil.copy2(src, dst)
             PRIVATE_DRIVER[ctx.pid.upper()] = dst
+            import atexit
+            atexit.register(cleanup_private_drivers)
     except OSError:
         pass
     ctx.proof['build_log'] = log[-4000:] if not ok else ''
     # grep (comments stripped) over the theorem files and everything they import from this project
     files = set(theorem_files) | set(extra_grep_files)
+    # the driver of this property and the Driver modules it imports: an `implemented_by`/`extern` there would make the executed code differ from the proved constant
+    for f in (f'Driver/{ctx.pid}.lean', f'Driver/{ctx.pid}Main.lean', 'Driver/Loop.lean'):
+        if os.path.exists(os.path.join(LEAN, f)):
+            files.add(f)
     todo = list(files)
     while todo:
         f = todo.pop()
@@ -194,7 +219,7 @@ def audit(ctx, theorem_files, extra_grep_files=()):
             src = open(os.path.join(LEAN, f)).read()
         except FileNotFoundError:
             continue
-        for m in re.finditer(r'^\s*import\s+((?:NumqiModel|NumqiProofs|NumqiProps)\.\S+)', src, re.M):
+        for m in re.finditer(r'^\s*import\s+((?:NumqiModel|NumqiProofs|NumqiProps|Driver)\.\S+)', src, re.M):
             g = m.group(1).replace('.', '/') + '.lean'
             if g not in files:
                 files.add(g); todo.append(g)
@@ -218,7 +243,7 @@ def audit(ctx, theorem_files, extra_grep_files=()):
         for m in re.finditer(r'^\s*(?:noncomputable\s+)?def\s+([A-Za-z0-9_.\']*Statement)\b', src, re.M):
             stm.append(f'{f}: {m.group(1)}')
     ctx.proof['statements'] = stm
-    ctx.proof['obligations'] = len(names)
+    ctx.proof['obligations'] = len({n for _, n in names})
     if not ok:
         # find which modules still build, so that the surviving theorems are still counted
         good = []
@@ -232,9 +257,10 @@ def audit(ctx, theorem_files, extra_grep_files=()):
         os.makedirs(os.path.join(LEAN, '.lake', 'audit'), exist_ok=True)
         ap = os.path.join(LEAN, '.lake', 'audit', f'Audit_{ctx.pid}.lean')
         imports = sorted({module_of(f) for f, _ in names_ok})
-        with open(ap, 'w') as fh:
+        with open(ap + '.tmp', 'w') as fh:
             for m in imports: fh.write(f'import {m}\n')
             for _, n in names_ok: fh.write(f'#print axioms {n}\n')
+        os.replace(ap + '.tmp', ap)
         p = subprocess.run(['lake', 'env', 'lean', ap], cwd=LEAN, capture_output=True, text=True, timeout=1800)
         out = p.stdout + p.stderr
         out1 = out.replace('\n  ', ' ').replace('\n ', ' ')
@@ -261,7 +287,7 @@ def audit(ctx, theorem_files, extra_grep_files=()):
             ctx.extra['leanchecker'] = dict(modules=mods, exit='timeout')
     disc = [n for n, ax in ctx.proof['theorems'].items() if ax is not None and set(ax) <= ALLOWED_AXIOMS]
     ctx.proof['discharged'] = len(disc) if not ctx.proof['grep_hits'] else 0
-    return ok and not ctx.proof['grep_hits'] and len(disc) == len(names)
+    return ok and not ctx.proof['grep_hits'] and len(disc) == len({n for _, n in names})
 
 
 _driver = None
@@ -308,18 +334,24 @@ def compare(ctx, ops, impl_out, model_out, key=lambda op: op.split(' ')[1] if ' 
 # ---------------------------------------------------------------------------
 # verdict + evidence
 # ---------------------------------------------------------------------------
+def atomic_write_json(path, obj):
+    tmp = f'{path}.{os.getpid()}.tmp'
+    with open(tmp, 'w') as fh:
+        json.dump(obj, fh, indent=1, default=str)
+    os.replace(tmp, path)
+
+
 def write_replay(pid, payload):
     os.makedirs(REPLAY, exist_ok=True)
     h = hashlib.sha1(json.dumps(payload, sort_keys=True, default=str).encode()).hexdigest()[:12]
     path = os.path.join(REPLAY, f'{pid}-{h}.json')
-    with open(path, 'w') as fh:
-        json.dump(payload, fh, indent=1, default=str)
+    atomic_write_json(path, payload)
     return path
 
 
 def is_known(ctx, key):
     for e in ctx.known:
-        if e['property'] == ctx.pid and (e['key'] == key or key.startswith(e['key'])):
+        if e['property'] == ctx.pid and (e['key'] == key or key.startswith(e['key'] + ':')):
             return e
     return None
 
@@ -327,6 +359,10 @@ def is_known(ctx, key):
 def _dedupe_suffix(names):
     names = sorted(set(names))
     return [n for n in names if not any(m != n and m.endswith('.' + n) for m in names)]
+
+
+RESERVED_COVERAGE_KEYS = {'obligations', 'discharged', 'checker_cmd', 'trusted_base', 'theorems', 'traces_validated_against_impl', 'disagreements',
+                          'evaluations', 'distinct_nontrivial', 'rule', 'samples', 'histogram', 'probe', 'notes', 'build_lock_wait_s'}
 
 
 def finish(ctx, proof_ok, level='proof', checker_cmd='', trusted=None, rule=''):
@@ -369,7 +405,7 @@ def finish(ctx, proof_ok, level='proof', checker_cmd='', trusted=None, rule=''):
             # obligations = the theorems stated in the property files (each must be discharged for the proof level);
             # full-strength targets kept as `def …Statement : Prop` next to a proved `…_partial` are NOT counted here:
             # they are listed under open_statements (named gaps, see DESIGN.md / design_notes)
-            obligations=max(len(ctx.proof['theorems']), 1), discharged=max(ctx.proof['discharged'], 0) if ctx.proof['theorems'] else 0,
+            obligations=len(ctx.proof['theorems']), discharged=max(ctx.proof['discharged'], 0) if ctx.proof['theorems'] else 0,
             open_statements=_dedupe_suffix(list(ctx.extra.get('open_statements', []) if isinstance(ctx.extra.get('open_statements', []), list) else []) + [x.split(': ', 1)[1] for x in ctx.proof.get('statements', [])]),
             checker_cmd=checker_cmd or f'cd lean && lake build {" ".join(module_of(f) for f in ctx.extra.get("theorem_files", []))} && lake env lean .lake/audit/Audit_{ctx.pid}.lean',
             trusted_base=trusted or [],
@@ -384,7 +420,7 @@ def finish(ctx, proof_ok, level='proof', checker_cmd='', trusted=None, rule=''):
             probe=dict(evaluations=ctx.probe_evals, failures=len(ctx.failures)),
             notes=ctx.notes,
             build_lock_wait_s=round(LOCK_WAIT[0], 2),
-            **{k: v for k, v in ctx.extra.items() if k not in ('theorem_files', 'open_statements')},
+            **{(k if k not in RESERVED_COVERAGE_KEYS else 'extra_' + k): v for k, v in ctx.extra.items() if k not in ('theorem_files', 'open_statements')},
         ),
         assumptions=ctx.assumptions,
         wall_s=round(ctx.elapsed() - LOCK_WAIT[0], 2),
@@ -395,22 +431,47 @@ def finish(ctx, proof_ok, level='proof', checker_cmd='', trusted=None, rule=''):
         ev['coverage'].pop('obligations'); ev['coverage'].pop('discharged')
         ev['coverage']['obligations_total'] = len(ctx.proof['theorems'])
         ev['coverage']['discharged_total'] = 0
-        ev['coverage']['evaluations'] = max(ev['coverage']['evaluations'], 1)
-        ev['coverage']['distinct_nontrivial'] = max(ev['coverage']['distinct_nontrivial'], 2)
-    os.makedirs(EVID, exist_ok=True)
-    with open(os.path.join(EVID, f'{ctx.pid}.json'), 'w') as fh:
-        json.dump(ev, fh, indent=1, default=str)
-    for pth in PRIVATE_DRIVER.values():
-        try:
-            os.remove(pth)
-        except OSError:
-            pass
+        ev['coverage']['proof_audit_failed'] = True   # measured values are written as they are; this run is not proof-level evidence
     for path, suffix in violations:
         print(f'VIOLATION property={ctx.pid} replay={os.path.relpath(path, VERIF)}{suffix}')
     print(f'[{ctx.pid}] tier={ctx.tier} seed={ctx.seed} theorems {ctx.proof["discharged"]}/{ctx.proof["obligations"]} '
           f'correspondence {ctx.agreements} agree / {len(ctx.disagreements)} differ, probe {ctx.probe_evals} evals / {len(ctx.failures)} failures, '
           f'{ctx.elapsed():.1f}s')
-    return 1 if violations else 0
+    sys.stdout.flush()
+    rc = 1 if violations else 0
+    # the verdict is printed before the evidence is written: an unwritable evidence file must not swallow a violation
+    try:
+        os.makedirs(EVID, exist_ok=True)
+        atomic_write_json(os.path.join(EVID, f'{ctx.pid}.json'), ev)
+    except OSError as e:
+        print(f'[{ctx.pid}] cannot write evidence: {e}', file=sys.stderr)
+        rc = rc or 2
+    cleanup_private_drivers()
+    return rc
+
+
+def cleanup_private_drivers():
+    for pth in list(PRIVATE_DRIVER.values()):
+        try:
+            os.remove(pth)
+        except OSError:
+            pass
+    PRIVATE_DRIVER.clear()
+
+
+def sweep_stale_private_drivers():
+    """remove run-private driver copies whose owning process is gone (killed runs, timeouts)"""
+    d = os.path.join(LEAN, '.lake', 'run')
+    try:
+        for f in os.listdir(d):
+            m = re.match(r'driver_c\d\d_(\d+)$', f)
+            if m and not os.path.exists(f'/proc/{m.group(1)}'):
+                try:
+                    os.remove(os.path.join(d, f))
+                except OSError:
+                    pass
+    except OSError:
+        pass
 
 
 def generated_digest():
@@ -424,24 +485,70 @@ def generated_digest():
     return h.hexdigest()
 
 
-def run_check(pid, mod, tier, seed, replay=None):
-    ctx = Ctx(pid, tier, seed)
-    ctx.extra['theorem_files'] = list(mod.THEOREM_FILES)
+class CheckTimeout(Exception):
+    pass
+
+
+def _arm_budget():
+    """overall time budget of one check (VERIF_TIMEOUT seconds, default 3 h): exceeded -> message, exit 2"""
+    import signal
     try:
+        budget = int(os.environ.get('VERIF_TIMEOUT') or 10800)
+    except ValueError:
+        budget = 10800
+    def on_alarm(signum, frame):
+        raise CheckTimeout(f'time budget of {budget} s exceeded (VERIF_TIMEOUT)')
+    try:
+        signal.signal(signal.SIGALRM, on_alarm)
+        signal.alarm(max(budget, 1))
+    except (ValueError, OSError):
+        pass
+
+
+def run_check(pid, mod, tier, seed, replay=None, seed_given=True, tier_given=True):
+    _arm_budget()
+    try:
+        payload = None
         if replay:
             payload = json.load(open(replay))
+            if not isinstance(payload, dict) or payload.get('kind') not in ('failing-input', 'no-failing-input-found'):
+                print(f'[{pid}] {replay} is not a replay file written by this check', file=sys.stderr)
+                return 2
+            if payload.get('property') not in (None, pid):
+                print(f"[{pid}] {replay} belongs to property {payload.get('property')}", file=sys.stderr)
+                return 2
+            # replay under the recorded run's seed and tier unless the caller overrides them explicitly
+            if isinstance(payload.get('seed'), int) and not seed_given:
+                seed = payload['seed']
+            if payload.get('tier') in ('quick', 'thorough') and not tier_given:
+                tier = payload['tier']
+        ctx = Ctx(pid, tier, seed)
+        ctx.extra['theorem_files'] = list(mod.THEOREM_FILES)
+        if replay and payload.get('kind') == 'failing-input':
             ctx.replay_path = replay
-            if hasattr(mod, 'replay'):
-                return mod.replay(ctx, payload)
-            # generic replay: re-run the direct probe and report whether the recorded key fails again
-            mod.probe(ctx)
-            hit = [f for f in ctx.failures if f['key'] == payload.get('key')]
-            if hit:
-                print(f"replay: {payload.get('key')} still fails: {hit[0]['what']}")
-                print(f'VIOLATION property={pid} replay={replay}')
-                return 1
-            print(f"replay: {payload.get('key')} no longer fails ({ctx.probe_evals} probe evaluations)")
-            return 0
+            # the driver and the generated data must be this tree's: translate + build under the lock, as a normal run does
+            with build_lock():
+                if hasattr(mod, 'translate'):
+                    mod.translate(ctx)
+                audit(ctx, mod.THEOREM_FILES, getattr(mod, 'GREP_FILES', ()))
+            try:
+                if hasattr(mod, 'replay'):
+                    return mod.replay(ctx, payload)
+                # generic replay: re-run the direct probe and report whether the recorded key fails again
+                mod.probe(ctx)
+                hit = [f for f in ctx.failures if f['key'] == payload.get('key')]
+                if hit:
+                    print(f"replay: {payload.get('key')} still fails: {hit[0]['what']}")
+                    print(f'VIOLATION property={pid} replay={replay}')
+                    return 1
+                print(f"replay: {payload.get('key')} no longer fails ({ctx.probe_evals} probe evaluations)")
+                return 0
+            finally:
+                cleanup_private_drivers()
+        # a `no-failing-input-found` replay names the theorems / ops that no longer check: re-running the whole check under the recorded
+        # seed and tier is its replay (falls through to the normal run below)
+        if replay:
+            ctx.replay_path = replay
         with build_lock():
             # the generated Lean data must be the same files from the translators to the end of the audit; every writer in
             # /verif takes the lock, so a change can only come from a process that bypasses it: retry once, then give up (exit 2)
@@ -470,8 +577,9 @@ def run_check(pid, mod, tier, seed, replay=None):
             mod.search(ctx, ctx.disagreements)
         return finish(ctx, proof_ok, level=getattr(mod, 'LEVEL', 'proof'),
                       trusted=getattr(mod, 'TRUSTED', None), rule=getattr(mod, 'RULE', ''))
-    except subprocess.TimeoutExpired as e:
+    except (subprocess.TimeoutExpired, CheckTimeout) as e:
         print(f'[{pid}] internal timeout: {e}', file=sys.stderr)
+        cleanup_private_drivers()
         return 2
     except Exception:
         traceback.print_exc()
